@@ -143,7 +143,7 @@ static ogg_int64_t _get_next_page(OggVorbis_File *vf,ogg_page *og,
 /* find the latest page beginning before the passed in position. Much
    dirtier than the above as Ogg doesn't have any backward search
    linkage.  no 'readp' as it will certainly have to read. */
-/* returns offset or OV_EREAD, OV_FAULT */
+/* returns offset or OV_EREAD, OV_FAULT, OV_EBADLINK */
 static ogg_int64_t _get_prev_page(OggVorbis_File *vf,ogg_int64_t begin,ogg_page *og){
   ogg_int64_t end = begin;
   ogg_int64_t ret;
@@ -167,6 +167,10 @@ static ogg_int64_t _get_prev_page(OggVorbis_File *vf,ogg_int64_t begin,ogg_page 
         offset=ret;
       }
     }
+    /*We started from the beginning of the stream and found nothing.
+      This should be impossible unless the contents of the stream changed out
+      from under us after we read from it.*/
+    if(!begin&&offset<0)return OV_EBADLINK;
   }
 
   /* In a fully compliant, non-multiplexed stream, we'll still be
@@ -267,7 +271,7 @@ static ogg_int64_t _get_prev_page_serial(OggVorbis_File *vf, ogg_int64_t begin,
     /*We started from the beginning of the stream and found nothing.
       This should be impossible unless the contents of the stream changed out
       from under us after we read from it.*/
-    if(!begin&&vf->offset<0)return OV_EBADLINK;
+    if(!begin&&offset<0)return OV_EBADLINK;
   }
 
   /* we're not interested in the page... just the serialno and granpos. */
